@@ -210,6 +210,27 @@ func (a *cbAddr) UnmarshalText(b []byte) error {
 	return nil
 }
 
+// W-durations: the root grammar type itself implements Parseable (Parser.rootParseable path).
+var worldDurations = &world{
+	name: "durations", lexerKind: "text/scanner", junk: " ! !", hasCallbacks: true,
+	build: func(o buildOpts) PH {
+		opts := applyCommon(o, nil, nil)
+		return mustPH[cbDuration](nil, opts...)
+	},
+	stmtBuild: func(o buildOpts) PH {
+		opts := applyCommon(o, nil, nil)
+		return mustPH[cbDuration](nil, opts...)
+	},
+	docs: []doc{
+		{name: "ms", valid: true, text: "15 ms", stmts: []string{"15 ms", "7 h", "3", "250 s"}},
+		{name: "bare", valid: true, text: " 7\n", stmts: []string{"7", "8 ms"}},
+		{name: "not-a-number", valid: false, text: "soon"},
+		{name: "trailing", valid: false, text: "15 ms 3"},
+		{name: "huge", valid: false, text: "99999999999999999999999 h"},
+		{name: "empty", valid: false, text: ""},
+	},
+}
+
 var worldCallbacks = &world{
 	name: "callbacks", lexerKind: "text/scanner", junk: " ! !", hasCallbacks: true,
 	build: func(o buildOpts) PH {
